@@ -1,16 +1,19 @@
 #!/bin/bash
-# Build (or refresh) the hooks-on library from /repo's current working tree.
-# Used by MANIFEST.setup_cmd and by every check (incremental: ninja only rebuilds what changed).
+# Build (or refresh) the hooks-on library from the repository's current working tree (/repo unless VERIF_REPO is set for a
+# mutation experiment on a scratch copy).  Used by MANIFEST.setup_cmd and by every check (incremental: ninja only rebuilds
+# what changed).
 set -e
 V=/verif
-B=$V/.build/photon
-mkdir -p $V/.build $V/out
-exec 9>$V/.build/.lock
+R=${VERIF_REPO:-/repo}
+BB=${VERIF_BUILD:-$V/.build}
+B=$BB/photon
+mkdir -p $BB $V/out
+exec 9>$BB/.lock
 flock 9
 if [ ! -f $B/build.ninja ]; then
-  cmake -G Ninja -S /repo -B $B -DCMAKE_BUILD_TYPE=RelWithDebInfo \
+  cmake -G Ninja -S $R -B $B -DCMAKE_BUILD_TYPE=RelWithDebInfo \
     -DCMAKE_CXX_FLAGS="-Wno-error -DPHOTON_VERIF" -DCMAKE_C_FLAGS="-DPHOTON_VERIF" \
-    -DPHOTON_BUILD_TESTING=OFF -DPHOTON_CXX_STANDARD=14 -DPHOTON_ENABLE_LIBCURL=ON > $V/.build/cmake.log 2>&1 || { cat $V/.build/cmake.log; exit 2; }
+    -DPHOTON_BUILD_TESTING=OFF -DPHOTON_CXX_STANDARD=14 -DPHOTON_ENABLE_LIBCURL=ON > $BB/cmake.log 2>&1 || { cat $BB/cmake.log; exit 2; }
 fi
-ninja -C $B photon_static > $V/.build/ninja.log 2>&1 || { tail -50 $V/.build/ninja.log; exit 2; }
+ninja -C $B photon_static > $BB/ninja.log 2>&1 || { tail -50 $BB/ninja.log; exit 2; }
 echo "setup ok: $(ls -la $B/output/libphoton_sole.a 2>/dev/null || find $B -name 'libphoton*.a' | head -3)"
